@@ -1089,6 +1089,9 @@ class SRPExtension(TLSExtension):
 
         self.identity = p.getVarBytes(1)
 
+        if p.getRemainingLength():
+            raise DecodeError("Trailing data in SRP extension")
+
         return self
 
 
@@ -1348,6 +1351,9 @@ class TACKExtension(TLSExtension):
         p.stopLengthCheck()
         self.activation_flags = p.get(1)
 
+        if p.getRemainingLength():
+            raise DecodeError("Trailing data in TACK extension")
+
         return self
 
 
@@ -1373,6 +1379,9 @@ class DelegatedCredentialCertExtension(TLSExtension):
     def parse(self, p):
         """Deserialise the data from on the wire representation."""
         self.delegated_credential = DelegatedCredential().parse(p)
+        if p.getRemainingLength():
+            raise DecodeError("Trailing data in delegated_credential "
+                              "extension")
         return self
 
     @property
@@ -1890,6 +1899,10 @@ class ClientKeyShareExtension(TLSExtension):
 
         :rtype: bytearray
         """
+        if self.client_shares is None:
+            # extension parsed from an empty payload
+            return bytearray(0)
+
         shares = Writer()
         for share in self.client_shares:
             share.write(shares)
